@@ -160,6 +160,8 @@ func initProperties() {
 				use("POOLESCAPE", "copy-out before free", funcHas("thrift/generic.PathNode")),
 				use("TYPESWITCHAGREE", "unhashable map keys boxed by every decoder", thriftGeneric),
 				use("SIZEPATCH", "a skipped child corrects the container count", thriftGeneric),
+				use("INDEXUPPER", "the by-id fast path is bounded by the loaded children", thriftGeneric),
+				use("DIVZERO", "hash-slot arithmetic survives an empty container", thriftGeneric),
 				use("KTETROLE", "key/element types not mixed up", thriftGeneric),
 				use("DROPERR", "errors propagate", funcHas("thrift/generic.PathNode")),
 			)},
@@ -350,6 +352,7 @@ func initProperties() {
 				use("FIELDNEVERSET", "no descriptor accessor returns a never-assigned field", inPkgs("thrift")),
 				use("LITPAIR", "name and alias are set together", inPkgs("thrift")),
 				use("PARSEPURE", "a parse leaves nothing behind for the next parse", nil),
+				use("DIVZERO", "name-index hash arithmetic never divides by zero", inPkgs("internal/caching", "internal/util")),
 			)},
 		{ID: "C15", Title: "Protobuf descriptors mirror the schema",
 			Decides: "the compiling cache is keyed injectively (CACHEKEY: message types sharing a simple name get distinct descriptors), kind/wire/packedness tables match the spec (KINDTABLE), name maps are built (BUILDPAIR).",
